@@ -528,6 +528,97 @@ run_subrace(void *arg)
 	vh_fini();
 }
 
+// ---- raw XSUB: overflow, then business as usual -----------------------------------------------------------------
+// two publishers feed one raw SUB socket (no filtering in raw mode: everything is delivered) whose receive
+// buffer holds rb messages.  Publisher A overruns it by `over` messages while nobody reads (exactly one
+// message is dropped per arrival that finds the buffer full - here the new one), the application drains,
+// and then BOTH publishers are heard again: a dropped arrival must not cost anything but itself.
+static void
+xs_pub(nng_socket s, char who, int k)
+{
+	char b[4] = { who, (char) ('0' + k / 10), (char) ('0' + k % 10), 0 };
+	int  rv   = vh_send_nb(s, b, 3);
+	if (rv != 0)
+		vs_fail("C05:pub-blocked", "publisher %c: non-blocking send %d -> %s", who, k, nng_strerror(rv));
+	vs_settle();
+}
+static int
+xs_drain(nng_socket x, char *out, int max)
+{
+	int n = 0;
+	for (;;) {
+		nng_msg *m = NULL;
+		if (nng_recvmsg(x, &m, NNG_FLAG_NONBLOCK) != 0)
+			break;
+		if (nng_msg_len(m) != 3)
+			vs_fail("C05:altered", "raw SUB delivered %zu bytes, 3 were published", nng_msg_len(m));
+		if (n < max) {
+			memcpy(out + 3 * n, nng_msg_body(m), 3);
+			n++;
+		}
+		nng_msg_free(m);
+		vs_settle();
+	}
+	out[3 * n] = 0;
+	return n;
+}
+static void
+run_xsub(void *arg)
+{
+	(void) arg;
+	static const int RB[] = { 1, 2, 4 };
+	vh_init(0);
+	nng_socket x, a, b;
+	int        rb   = RB[vs_choose(VK_ENV, 3)];
+	int        over = vs_choose(VK_ENV, 4);      // arrivals beyond the capacity: 0 .. 3
+	int        fromb = vs_choose(VK_ENV, 2);     // the last overflowing arrival comes from B
+	VH_OK(nng_sub0_open_raw(&x));
+	VH_OK(nng_socket_set_int(x, NNG_OPT_RECVBUF, rb));
+	VH_OK(nng_pub0_open(&a));
+	VH_OK(nng_pub0_open(&b));
+	VH_OK(nng_listen(x, "inproc://c05xsub", NULL, 0));
+	VH_OK(nng_dial(a, "inproc://c05xsub", NULL, 0));
+	VH_OK(nng_dial(b, "inproc://c05xsub", NULL, 0));
+	vs_settle();
+	char want[3 * 16 + 1] = "", got[3 * 16 + 1];
+	int  nw = 0;
+	for (int k = 0; k < rb + over; k++) {
+		char who = (fromb && k == rb + over - 1) ? 'B' : 'A';
+		xs_pub(who == 'A' ? a : b, who, k);
+		if (k < rb) { // (the rest finds the buffer full)
+			char t[4] = { who, (char) ('0' + k / 10), (char) ('0' + k % 10), 0 };
+			memcpy(want + 3 * nw++, t, 4);
+		}
+	}
+	int n = xs_drain(x, got, 16);
+	if (n != nw || strcmp(got, want) != 0)
+		vs_fail("C05:overflow",
+		    "raw SUB, recvbuf %d, %d arrivals with nobody reading: delivered [%s], want the first %d "
+		    "[%s] (one drop per arrival that finds the buffer full)",
+		    rb, rb + over, got, nw, want);
+	// room again: every further message of both publishers arrives, in order
+	want[0] = 0;
+	nw      = 0;
+	for (int k = 20; k < 24; k++) {
+		char who = (k & 1) ? 'B' : 'A';
+		char t[8];
+		xs_pub(who == 'A' ? a : b, who, k);
+		snprintf(t, sizeof(t), "%c%02d", who, k);
+		n = xs_drain(x, got, 16);
+		if (strcmp(got, t) != 0)
+			vs_fail("C05:lost-after-overflow",
+			    "raw SUB, recvbuf %d, after %d overflowing arrival(s)%s and a drain: %c published "
+			    "one message into the empty buffer, delivered [%s] (want [%s])",
+			    rb, over, fromb ? " (last one from B)" : "", who, got, t);
+	}
+	vs_nontrivial();
+	vs_outcome("rb=%d over=%d", rb, over);
+	nng_socket_close(a);
+	nng_socket_close(b);
+	nng_socket_close(x);
+	vh_fini();
+}
+
 static void
 explore(const char *name, void (*fn)(void *), void *arg)
 {
@@ -620,6 +711,7 @@ main(int argc, char **argv)
 			break;
 		explore(name, run_sub, NULL);
 	}
+	explore("xsub-overflow-then-resume", run_xsub, NULL);
 	explore("pub-sendbuf1", run_pub, (void *) 1);
 	explore("pub-sendbuf8", run_pub, (void *) 8);
 	if (T) {
